@@ -16,6 +16,10 @@ func clientCfg(t *rapid.T) sim.CConfig {
 	}
 	c.HookCalls = rapid.IntRange(0, 3).Draw(t, "hookcalls") == 0
 	c.HookClose = rapid.IntRange(0, 5).Draw(t, "hookclose") == 0
+	if rapid.IntRange(0, 5).Draw(t, "closefails") == 0 {
+		// the channel's Close does close it, and reports an error (a last flush failed)
+		c.Faults = append(c.Faults, sim.Fault{Op: "close", At: 1, Kind: "err"})
+	}
 	if rapid.IntRange(0, 2).Draw(t, "pins") == 0 {
 		n := rapid.IntRange(1, 2).Draw(t, "npins")
 		for i := 0; i < n; i++ {
